@@ -5,6 +5,7 @@ import (
 	"go/ast"
 	"go/token"
 	"go/types"
+	"golang.org/x/tools/go/types/typeutil"
 	"os"
 	"path/filepath"
 	"regexp"
@@ -685,6 +686,9 @@ var netPure = map[string]bool{"IP": true, "IPNet": true, "IPMask": true, "ParseI
 	"IPv4len": true, "IPv6len": true, "IPv4zero": true, "IPv6zero": true, "IPv6unspecified": true, "IPv6loopback": true, "IPv4bcast": true, "IPv4allsys": true, "IPv4allrouter": true,
 	"ParseError": true, "AddrError": true, "SplitHostPort": true, "JoinHostPort": true, "InvalidAddrError": true}
 
+// methods of time.Time whose result does not depend on the value's location
+var timeZoneFree = map[string]bool{"UTC": true, "In": true, "Before": true, "After": true, "Equal": true, "Compare": true, "Sub": true, "Unix": true, "UnixNano": true, "UnixMilli": true, "UnixMicro": true, "IsZero": true}
+
 var timeImpure = map[string]bool{"Now": true, "Since": true, "Until": true, "Sleep": true, "After": true, "Tick": true, "NewTimer": true, "NewTicker": true, "AfterFunc": true, "LoadLocation": true, "Local": true, "LoadLocationFromTZData": true}
 
 // who may use what: enclosing function (rendered pkg.Func or pkg.(T).M) → object → reason
@@ -861,11 +865,41 @@ func c05API(c *Ctx, r *Report) {
 			nflag++
 			r.Bad("api-policy", where+"|"+on, u.id.Pos(), where+" uses "+on+": "+flagged)
 		}
-		// statements: go, select, channel send/receive
+		// statements: go, select, channel send/receive; instants built in the host's zone
 		for _, f := range p.Syntax {
 			file := f
+			var stack []ast.Node
 			ast.Inspect(file, func(n ast.Node) bool {
+				if n == nil {
+					stack = stack[:len(stack)-1]
+					return true
+				}
+				stack = append(stack, n)
 				switch x := n.(type) {
+				case *ast.CallExpr:
+					// time.Unix / UnixMilli / UnixMicro return the instant in time.Local: any
+					// zone-dependent observation of it (Format, String, Year, Hour, Date, %v …)
+					// depends on TZ / /etc/localtime. Accepted only when the value is at once
+					// normalised (.UTC(), .In(<expr>)) or observed through a zone-free method.
+					fn, _ := typeutil.Callee(p.TypesInfo, x).(*types.Func)
+					if fn == nil || fn.Pkg() == nil || fn.Pkg().Path() != "time" || fn.Type().(*types.Signature).Recv() != nil {
+						break
+					}
+					if nm := fn.Name(); nm != "Unix" && nm != "UnixMilli" && nm != "UnixMicro" {
+						break
+					}
+					nuses++
+					ok := false
+					if len(stack) >= 3 {
+						if sel, isSel := stack[len(stack)-2].(*ast.SelectorExpr); isSel && sel.X == x {
+							if call, isCall := stack[len(stack)-3].(*ast.CallExpr); isCall && call.Fun == sel && timeZoneFree[sel.Sel.Name] {
+								ok = true
+							}
+						}
+					}
+					where := enclosingName(p, file, x.Pos())
+					r.Check(ok, "api-policy", where+"|time."+fn.Name()+"-local", x.Pos(), "the instant is normalised or observed zone-free at once",
+						where+" builds a time.Time with time."+fn.Name()+", which is in the host's local zone (TZ, /etc/localtime): formatting or taking calendar fields of it makes the result depend on the environment; normalise with .UTC() first")
 				case *ast.GoStmt:
 					r.Bad("api-policy", enclosingName(p, file, x.Pos())+"|go", x.Pos(), "lint code starts a goroutine: scheduling makes the outcome nondeterministic")
 				case *ast.SelectStmt:
